@@ -51,9 +51,12 @@ type worker[T any, JobType iJob[T]] struct {
 	tickers         []*time.Ticker
 	tickerDones     []chan struct{}
 	mx              sync.RWMutex
-	ctx             context.Context
-	cancel          context.CancelFunc
-	Configs         configs
+	// lifecycle serialises Stop and Restart (and the context listener's stop): both
+	// tear down and replace the channels, tickers, pool and context of a run
+	lifecycle sync.Mutex
+	ctx       context.Context
+	cancel    context.CancelFunc
+	Configs   configs
 }
 
 // Worker represents a worker that processes Jobs.
@@ -456,13 +459,13 @@ func (w *worker[T, JobType]) goListenToContext() {
 		<-c.Done()
 
 		// Restart cancels the context of the run it replaces: only the listener of
-		// the current context may stop the worker
-		w.mx.RLock()
-		current := w.ctx == c
-		w.mx.RUnlock()
+		// the current context may stop the worker. The check and the stop happen under
+		// the lifecycle lock, so a Restart cannot slip in between them.
+		w.lifecycle.Lock()
+		defer w.lifecycle.Unlock()
 
-		if current {
-			w.Stop()
+		if w.ctx == c {
+			w.stop()
 		}
 	}(w.ctx)
 }
@@ -644,6 +647,14 @@ func (w *worker[T, JobType]) Pause() error {
 }
 
 func (w *worker[T, JobType]) Stop() error {
+	w.lifecycle.Lock()
+	defer w.lifecycle.Unlock()
+
+	return w.stop()
+}
+
+// stop is Stop without taking the lifecycle lock.
+func (w *worker[T, JobType]) stop() error {
 	switch s := w.status.Load(); s {
 	case stopped:
 		return nil
@@ -679,6 +690,9 @@ func (w *worker[T, JobType]) NumPending() int {
 }
 
 func (w *worker[T, JobType]) Restart() error {
+	w.lifecycle.Lock()
+	defer w.lifecycle.Unlock()
+
 	// If worker is running, pause and wait for ongoing processes
 	switch w.status.Load() {
 	case running:
